@@ -4,6 +4,7 @@ import (
 	"fmt"
 	"math"
 	"sort"
+	"strings"
 	"time"
 
 	"github.com/atlassian/escalator/pkg/controller"
@@ -32,9 +33,13 @@ type Profile struct {
 	Steps        int  // actions per history
 	Stale        bool // allow scans without cache sync
 	NoNegRates   bool
-	DupTaints    bool   // external taints may add a second taint under the same key (different effect)
-	OwnNodesOnly bool   // pods are bound only to nodes of the group they select (twin runs: keeps groups independent in the environment too)
-	FaultFocus   string // "" = any call; "node-writes" = get/update failures aimed at early calls or single nodes
+	DupTaints    bool     // external taints may add a second taint under the same key (different effect)
+	OwnNodesOnly bool     // pods are bound only to nodes of the group they select (twin runs: keeps groups independent in the environment too)
+	Big          bool     // one large group: tens to a hundred-odd nodes, bulk environment steps, short histories
+	OddConfig    bool     // option values that validation does not look at may be odd (fleet time-out of 0, 1ns, unparsable)
+	BulkWhat     []string // bulk steps this profile concentrates on (nil = all kinds)
+	Latency      bool     // the Kubernetes API may answer slowly (virtual time passes inside a scan)
+	FaultFocus   string   // "" = any call; "node-writes" = get/update failures aimed at early calls or single nodes
 }
 
 // DrawConfig draws a configuration the real validator accepts.
@@ -58,6 +63,15 @@ func DrawConfig(rt *rapid.T, p *Profile) Config {
 		}
 		if !sharedKey {
 			o.LabelKey = fmt.Sprintf("pool%d", g)
+		} else if g > 0 && rapid.IntRange(0, 3).Draw(rt, "relatedValue") == 0 {
+			// label values that contain one another or differ in one character (build / build-large, v1.2 / v1x2)
+			prev := cfg.Groups[g-1].Opts.LabelValue
+			o.LabelValue = rapid.SampledFrom([]string{prev + "0", prev + "-large", "x" + prev, strings.Replace(prev, "v", "v.", 1), strings.ToUpper(prev)}).Draw(rt, "value")
+			for _, q := range cfg.Groups {
+				if q.Opts.LabelValue == o.LabelValue {
+					o.LabelValue = fmt.Sprintf("v%d", g)
+				}
+			}
 		}
 		if g == defaultAt {
 			o.Name = controller.DefaultNodeGroup
@@ -134,11 +148,14 @@ func DrawConfig(rt *rapid.T, p *Profile) Config {
 		if p.MaxAge == 1 {
 			o.MaxNodeAge = rapid.SampledFrom([]string{"", "", "", "0", "1h", "600s"}).Draw(rt, "maxNodeAge")
 		}
-		fleet := p.Fleet == 2 || (p.Fleet == 1 && rapid.IntRange(0, 3).Draw(rt, "fleet") == 0)
+		fleet := p.Fleet == 2 || (p.Fleet == 1 && rapid.IntRange(0, 3).Draw(rt, "fleet") == 0) || (p.Fleet == 3 && rapid.Bool().Draw(rt, "fleet"))
 		if fleet {
 			o.AWS.LaunchTemplateID = "lt-0123456789abcdef0"
 			o.AWS.LaunchTemplateVersion = "1"
 			o.AWS.FleetInstanceReadyTimeout = rapid.SampledFrom([]string{"", "10s", "1m", "5m"}).Draw(rt, "fleetTimeout")
+			if p.OddConfig && rapid.Bool().Draw(rt, "oddFleetTimeout") { // the option is not validated: zero, tiny and unparsable values reach the provider
+				o.AWS.FleetInstanceReadyTimeout = rapid.SampledFrom([]string{"0s", "1ns", "2ns", "90", "1ms", "999ms", "-5s"}).Draw(rt, "fleetTimeoutOdd")
+			}
 			o.AWS.Lifecycle = rapid.SampledFrom([]string{"", "on-demand", "spot"}).Draw(rt, "lifecycle")
 			if rapid.Bool().Draw(rt, "overrides") {
 				o.AWS.InstanceTypeOverrides = []string{"m5.large", "m5a.large"}[:rapid.IntRange(1, 2).Draw(rt, "nOverrides")]
@@ -151,7 +168,15 @@ func DrawConfig(rt *rapid.T, p *Profile) Config {
 		gs.NodeMem = rapid.SampledFrom([]int64{1_000_000_000, 8_000_000_000, 4 << 30, 16_000_000_100}).Draw(rt, "nodeMem")
 		// bounds
 		asgMin := int64(rapid.IntRange(0, 4).Draw(rt, "asgMin"))
-		asgMax := asgMin + int64(rapid.IntRange(1, 14).Draw(rt, "asgMaxGap"))
+		gapLo, gapHi := 1, 14
+		if p.Big && g == 0 {
+			gapLo, gapHi = 20, 170
+			if rapid.Bool().Draw(rt, "veryBig") {
+				gapLo = 130
+			}
+			gs.NodeMem = rapid.SampledFrom([]int64{8_000_000_000, 16 << 30, 768 << 30}).Draw(rt, "bigNodeMem")
+		}
+		asgMax := asgMin + int64(rapid.IntRange(gapLo, gapHi).Draw(rt, "asgMaxGap"))
 		gs.ASGMin, gs.ASGMax = asgMin, asgMax
 		auto := (p.Auto == 1 && rapid.IntRange(0, 3).Draw(rt, "auto") == 0) || (p.Auto == 2 && rapid.Bool().Draw(rt, "auto"))
 		if !auto {
@@ -159,7 +184,7 @@ func DrawConfig(rt *rapid.T, p *Profile) Config {
 				gs.Opts.MinNodes, gs.Opts.MaxNodes = int(asgMin), int(asgMax)
 			} else {
 				gs.Opts.MinNodes = rapid.IntRange(0, 5).Draw(rt, "minNodes")
-				gs.Opts.MaxNodes = gs.Opts.MinNodes + rapid.IntRange(1, 14).Draw(rt, "maxNodesGap")
+				gs.Opts.MaxNodes = gs.Opts.MinNodes + rapid.IntRange(gapLo, gapHi).Draw(rt, "maxNodesGap")
 			}
 		}
 		hi := int(asgMax)
@@ -171,6 +196,15 @@ func DrawConfig(rt *rapid.T, p *Profile) Config {
 			lo = hi
 		}
 		gs.InitNodes = rapid.IntRange(lo, hi).Draw(rt, "initNodes")
+		if p.Big && g == 0 { // counts around the places where code tends to batch or pre-size
+			if !auto && gs.Opts.MaxNodes < hi {
+				hi = gs.Opts.MaxNodes
+			}
+			gs.InitNodes = rapid.SampledFrom([]int{9, 10, 16, 17, 20, 21, 22, 32, 33, 50, 64, 65, 99, 100, 101, 102, 120, 128, 129, 150}).Draw(rt, "bigInit")
+			if gs.InitNodes > hi {
+				gs.InitNodes = hi
+			}
+		}
 		if errs := controller.ValidateNodeGroup(gs.Opts); len(errs) > 0 {
 			rt.Fatalf("generator bug: configuration rejected by the validator: %v (%+v)", errs, gs.Opts)
 		}
@@ -274,6 +308,13 @@ func (w *World) drawTargetPods(rt *rapid.T, g int, forceClass ...string) (Action
 			return eq(S) + 1
 		case "aboveS":
 			return eq(S) + cap*int64(rapid.IntRange(1, 60).Draw(rt, "abovePct"))/100 + 1
+		case "need19", "need20", "need21", "need40", "need41", "need100", "need101": // exactly K more nodes bring utilisation down to the threshold
+			var K int64
+			fmt.Sscanf(class, "need%d", &K)
+			if U == 0 {
+				return eq(S) + 1
+			}
+			return S * (cap + K*(cap/U)) / 100
 		default:
 			return eq(S) * int64(rapid.IntRange(2, 5).Draw(rt, "factor"))
 		}
@@ -311,6 +352,7 @@ func (w *World) drawTargetPods(rt *rapid.T, g int, forceClass ...string) (Action
 		ps := PodSpec{Group: g, Via: rapid.SampledFrom(labelVias).Draw(rt, "via"), CPU: c, Mem: m, Split: rapid.IntRange(1, 3).Draw(rt, "split")}
 		if o.Name == controller.DefaultNodeGroup {
 			ps.Via = "none"
+			ps.EmptyAffinity = rapid.IntRange(0, 2).Draw(rt, "emptyAffinity") == 0
 		}
 		ps.Age = rapid.SampledFrom(podAges).Draw(rt, "podAge")
 		if len(all) > 0 && rapid.IntRange(0, 3).Draw(rt, "bound?") > 0 {
@@ -399,6 +441,9 @@ func (w *World) DrawAction(rt *rapid.T, p *Profile) (Action, string) {
 		}
 		return Action{Op: "scan", Flag: sync, Order: order}, "scan"
 	case "targetUtil":
+		if p.Big && rapid.IntRange(0, 2).Draw(rt, "exactNeed") == 0 {
+			return w.drawTargetPods(rt, g, "need19", "need20", "need21", "need40", "need41", "need100", "need101")
+		}
 		return w.drawTargetPods(rt, g)
 	case "advance":
 		tt := w.timeTargets()
@@ -416,6 +461,7 @@ func (w *World) DrawAction(rt *rapid.T, p *Profile) (Action, string) {
 				CPU: int64(rapid.IntRange(0, 3000).Draw(rt, "cpu")), Mem: int64(rapid.IntRange(0, 4000).Draw(rt, "memMB")) * 1_000_000,
 				Daemon: rapid.IntRange(0, 4).Draw(rt, "daemon") == 0, Split: rapid.IntRange(1, 2).Draw(rt, "split")}
 			ps.Age = rapid.SampledFrom(podAges).Draw(rt, "podAge")
+			ps.EmptyAffinity = ps.Via == "none" && rapid.IntRange(0, 2).Draw(rt, "emptyAffinity") == 0
 			if rapid.IntRange(0, 5).Draw(rt, "init") == 0 {
 				ps.InitCPU, ps.InitMem = int64(rapid.IntRange(0, 5000).Draw(rt, "initCPU")), int64(rapid.IntRange(0, 5000).Draw(rt, "initMemMB"))*1_000_000
 			}
@@ -606,6 +652,80 @@ func (w *World) DrawAction(rt *rapid.T, p *Profile) (Action, string) {
 		return Action{Op: "clearPods", Group: g}, "clearPods"
 	case "zeroOut":
 		return Action{Op: "zeroOut", Group: g}, "zeroOut"
+	case "bulk", "bulkAnd": // the same environment change on many nodes of the group at once (bulkAnd: plus one node treated differently, then a scan)
+		names := w.GroupNodeNames(g)
+		if len(names) > 0 {
+			o := &w.Cfg.Groups[g].Opts
+			n := len(names)
+			k := rapid.SampledFrom([]int{0, 0, 8, 9, 10, 20, 21, 22, 50, 99, 100, 101, 102, 120, n - 1, n / 2, n - o.MinNodes - 1, n - 2}).Draw(rt, "count") // 0 = all
+			if k < 0 {
+				k = 0
+			}
+			// as many as the group can lose in one go while staying at or above both minimums
+			if room := n - maxInt(o.MinNodes, int(w.ASG(g).Min)); room > 100 && rapid.IntRange(0, 2).Draw(rt, "mass") == 0 {
+				k = rapid.IntRange(101, room).Draw(rt, "massCount")
+			}
+			kinds := []string{"taint", "taint+drain", "taint+annotate+drain", "annotate", "force+drain", "force", "cordon", "untaint", "taint+annotate"}
+			if len(p.BulkWhat) > 0 {
+				kinds = p.BulkWhat
+			}
+			what := rapid.SampledFrom(kinds).Draw(rt, "what")
+			back := Dur(o.SoftDeleteGracePeriod)
+			switch rapid.IntRange(0, 3).Draw(rt, "age") {
+			case 0:
+				back = 0
+			case 1:
+				back = Dur(o.HardDeleteGracePeriod)
+			}
+			back += time.Duration(rapid.IntRange(1, 90).Draw(rt, "past")) * time.Second
+			from := rapid.IntRange(0, n-1).Draw(rt, "from")
+			if rapid.Bool().Draw(rt, "fromFirst") {
+				from = 0
+			}
+			bulk := Action{Op: "bulk", Group: g, N: k, M: from, Key: what, D: back, Val: rapid.SampledFrom([]string{"keep", "true", `""`}).Draw(rt, "val")}
+			if op == "bulk" {
+				return bulk, "bulk/" + what
+			}
+			seq := []Action{bulk}
+			kk := k
+			if kk == 0 || kk > n {
+				kk = n
+			}
+			if kk < n { // a node outside the bulk range, in name order after it
+				x := names[(from+kk+rapid.IntRange(0, n-kk-1).Draw(rt, "other"))%n]
+				switch rapid.SampledFrom([]string{"cordon+drain", "due+annotate", "due", "none"}).Draw(rt, "otherNode") {
+				case "cordon+drain":
+					seq = append(seq, Action{Op: "cordon", Node: x, Flag: true}, Action{Op: "clearNode", Node: x})
+				case "due+annotate":
+					seq = append(seq, Action{Op: "annotate", Node: x, Val: "keep"},
+						Action{Op: "taint", Node: x, Key: ref.TaintKey, Val: fmt.Sprint(time.Now().Add(-Dur(o.HardDeleteGracePeriod) - time.Minute).Unix()), Effect: "NoSchedule"}, Action{Op: "clearNode", Node: x})
+				case "due":
+					seq = append(seq, Action{Op: "taint", Node: x, Key: ref.TaintKey, Val: fmt.Sprint(time.Now().Add(-Dur(o.HardDeleteGracePeriod) - time.Minute).Unix()), Effect: "NoSchedule"}, Action{Op: "clearNode", Node: x})
+				}
+			}
+			seq = append(seq, Action{Op: "scan", Flag: true})
+			return Action{Op: "seq", Seq: seq}, "bulkAnd/" + what
+		}
+	case "replaceAndReap": // a node is reaped, the ASG replaces it one for one, the replacement is reaped
+		names := w.GroupNodeNames(g)
+		if len(names) > 0 {
+			x := rapid.SampledFrom(names).Draw(rt, "node")
+			return Action{Op: "seq", Seq: []Action{
+				{Op: "drainAndForce", Group: g, Names: []string{x}}, {Op: "scan", Flag: true},
+				{Op: "launch", Group: g, N: 1, Ages: []int64{0}, Flag: true},
+				{Op: "drainAndForce", Group: g, Names: []string{"@newest"}}, {Op: "scan", Flag: true},
+			}}, "replaceAndReap"
+		}
+	case "notReady": // the kubelet's Ready condition of a node changes
+		if n, ok := needNode(); ok {
+			return Action{Op: "condition", Node: n, Val: rapid.SampledFrom([]string{"True", "False", "Unknown", "False", "Unknown", ""}).Draw(rt, "ready")}, "notReady"
+		}
+	case "terminating": // somebody deletes the node object but a finalizer keeps it around
+		if n, ok := needNode(); ok {
+			return Action{Op: "terminating", Node: n, Flag: rapid.IntRange(0, 3).Draw(rt, "undo") > 0}, "terminating"
+		}
+	case "latency":
+		return Action{Op: "latency", D: rapid.SampledFrom([]time.Duration{0, 0, 100 * time.Millisecond, 400 * time.Millisecond, 1200 * time.Millisecond, 3 * time.Second}).Draw(rt, "d")}, "latency"
 	case "dupNode": // two node objects for one instance
 		return Action{Op: "oddNode", Group: g, Key: "dupprov", N: rapid.IntRange(0, 20).Draw(rt, "which")}, "dupNode"
 	case "noProvNode": // a node that registered before the cloud controller set its provider id
@@ -876,4 +996,11 @@ func (w *World) drawFault(rt *rapid.T) Action {
 		fs = append(fs, f)
 	}
 	return Action{Op: "fault", Faults: fs, N: rapid.SampledFrom([]int{0, 0, 0, 1, 2}).Draw(rt, "failBuild")}
+}
+
+func maxInt(a, b int) int {
+	if a > b {
+		return a
+	}
+	return b
 }
